@@ -580,6 +580,9 @@ def run_c16(tier, seed, verdict, cov):
     gs = games(seed, 10, 20)
     for fen, moves in gs:
         cases.append({'id': len(cases), 'fen': fen, 'hist': moves, 'depth': 2})
+    # a few deep searches (millions of nodes: the cache grows large)
+    for f, dp in [(bench[0], 7), (bench[21], 6), (bench[26], 6)] + ([(bench[12], 7), (bench[2], 7)] if tier == 'thorough' else []):
+        cases.append({'id': len(cases), 'fen': f, 'hist': [], 'depth': dp})
     cp = os.path.join(d, 'cases.ndjson')
     write_cases(cp, cases)
     outs = []
